@@ -1,29 +1,17 @@
 #!/usr/bin/env python3
-"""seed_table.py : print the markdown table of DESIGN.md §9 from /verif/seeded/*/meta.json"""
-import glob, json, os, re
+"""seed_table.py : print the markdown table of DESIGN.md section 9 from /verif/seeded/*/meta.json"""
+import glob, json, re
 rows = []
-for d in sorted(glob.glob("/verif/seeded/*")):
-    mj = os.path.join(d, "meta.json")
-    if not os.path.exists(mj):
-        continue
-    m = json.load(open(mj))
-    patch = open(os.path.join(d, "patch.diff")).read()
-    funcs = []
-    for h in re.findall(r"^@@.*@@ (.*)$", patch, re.M):
-        h = h.strip()
-        if h and h not in funcs:
-            funcs.append(h)
-    where = ", ".join(m.get("files_changed", []))
-    first = ""
-    own = m["breaks_property"]
-    cr = m.get("checks_run", {})
-    if own in cr:
-        first = cr[own]
-    first = re.sub(r"0x[0-9a-f]{6,}", "0x..", first)
-    first = first.replace("VIOLATION (exit 1): ", "").replace("|", "/")
-    summ = m.get("summary") or ""
-    rows.append((m["id"], own, where, summ, ",".join(m.get("detected_by", [])) or "-", first[:170], m.get("history", "")))
-print("| seeded change | breaks | file(s) | what it does | reported by | first report of the property's own check |")
-print("|---|---|---|---|---|---|")
-for r in rows:
-    print("| %s | %s | %s | %s | %s | %s |" % r[:6])
+for d in sorted(glob.glob('/verif/seeded/*')):
+    m = json.load(open(d + '/meta.json'))
+    own = m['breaks_property']
+    first = m['checks_run'].get(own, '')
+    first = re.sub(r"0x[0-9a-f]{6,}", "0x..", first).replace("VIOLATION (exit 1): ", "").replace("|", "/")
+    for cut in (' / history', ' / program', ' / tree', ' / target', ' / buffer', ' / recycle'):
+        first = first.split(cut)[0]
+    fr = m.get('first_run_of_own_check', '')
+    rows.append("| %s | %s | %s | %s | %s |" % (m['id'], m.get('summary', '').replace('|', '/'), "yes" if fr == 'reported' and not m.get('history') else "no (see meta.json)",
+                                               "yes" if own in m['detected_by'] else "NO", first[:150]))
+print("| seeded change | what it does (all pass the pinned suite) | reported at first run | reported now | what the property's own quick check says |")
+print("|---|---|---|---|---|")
+print("\n".join(rows))
